@@ -676,7 +676,10 @@ SDreaddata(int32  sdsid,  /* IN:  dataset ID */
                     HGOTO_ERROR(DFE_BADCODER, FAIL);
                 }
             }
-        /* The case status=FAIL is not handled, not sure if it's intentional. -BMR */
+        /* an element that is not there or not special gives COMP_CODE_NONE:
+           FAIL means that the element could not be looked at (I/O error) */
+        if (status == FAIL)
+            HGOTO_ERROR(DFE_CANTACCESS, FAIL);
     } /* file is HDF */
 
     /* Get ready to read */
@@ -1927,7 +1930,10 @@ SDwritedata(int32  sdsid,  /* IN: dataset ID */
                     HGOTO_ERROR(DFE_BADCODER, FAIL);
                 }
             }
-        /* When HCPgetcomptype returns FAIL, assume no compression */
+        /* an element that is not there or not special gives COMP_CODE_NONE:
+           FAIL means that the element could not be looked at (I/O error) */
+        if (status == FAIL)
+            HGOTO_ERROR(DFE_CANTACCESS, FAIL);
     } /* file is HDF */
 
     /* get ready to write */
@@ -5345,6 +5351,8 @@ SDwritechunk(int32       sdsid,  /* IN: access aid to SDS */
                 HGOTO_ERROR(DFE_BADCODER, FAIL);
             }
         }
+    if (status == FAIL) /* the element could not be looked at */
+        HGOTO_ERROR(DFE_CANTACCESS, FAIL);
 
     /* inquire about element */
     ret_value = Hinquire(var->aid, NULL, NULL, NULL, NULL, NULL, NULL, NULL, &special);
@@ -5536,6 +5544,8 @@ SDreadchunk(int32  sdsid,  /* IN: access aid to SDS */
                 HGOTO_ERROR(DFE_BADCODER, FAIL);
             }
         }
+    if (status == FAIL) /* the element could not be looked at */
+        HGOTO_ERROR(DFE_CANTACCESS, FAIL);
 
     /* Need to get access id for the following calls */
     if (var->aid == FAIL) {
